@@ -32,11 +32,15 @@ BUDGET = {"quick": (1500, 4), "thorough": (25000, 16)}
 
 
 def strategy(tier):
+    negs = st.sampled_from(["[^a-z]{20}", "[^\\d!-/]{20}", "[^abc]x[^\\w]{9}", "[^0-9a-f]{12}", "[^ -@]{20}",
+                            "[^\\d]{20}", "[^A-Z0-9]{20}", "x[^a-zA-Z]{20}y", "[^\\[-~]{20}", "[^\\w]{20}"])
     sup = st.fixed_dictionaries({
         "pattern": regexgen.pattern_strategy(4),
         "max_repeat": st.sampled_from([0, 1, 3, 32]),
         "rng": rng.script_strategy(60),
         "seed": st.one_of(st.none(), st.none(), st.integers(0, 2 ** 32)),
+        # further patterns generated afterwards by the *same* generator object (state kept between calls)
+        "more": st.one_of(st.just([]), st.just([]), st.just([]), st.lists(negs, min_size=3, max_size=8)),
     })
     uns = st.fixed_dictionaries({
         "pattern": regexgen.unsupported_pattern_strategy(3),
@@ -134,6 +138,28 @@ def check(case, ctx):
     if unsup:
         ctx.label("unsupported:matched-anyway", "unsup:" + unsup)
         return
+
+    # the same generator object serves further patterns: nothing may carry over from one call to the next
+    for q in list(case.get("more", [])) * 3 + ([p] if case.get("more") and not unsup else []):
+        try:
+            re.compile(q)
+        except re.error:
+            continue
+        try:
+            with rng.seeded(len(q)):
+                s2 = gen.generate(q)
+        except Exception as e:  # noqa
+            raise Violation("supported-raises", f"same generator, later call: generate({q!r}) raised {e!r} "
+                                                f"(after {p!r})")
+        try:
+            ok2 = _fullmatch(q, s2)
+        except _Timeout:
+            continue
+        if not ok2:
+            raise Violation("nonmatch-after-reuse", f"same generator object, after {p!r} ...: generate({q!r}) = "
+                                                    f"{s2!r} does not fully match")
+    if case.get("more"):
+        ctx.label("generator-reused")
 
     # the schema-level statement: schema.str.regex(p) generates what its own validation accepts
     sch = schema.str.regex(p)
